@@ -57,9 +57,10 @@ Inductive lbl :=
 | AAcq | ARel                       (* RLock acquire / release *)
 | AArmTest                          (* if remaining > 0 or len(self._queue) or not self._running *)
 | ASetHd (k : hk)                   (* event.handler = event_handler *)
-| ARTest | ARWrite | ARHd | ARGet | ASig   (* reduce_time_left: test, write, handler tests, resume() signal *)
-| AWTest | AClear | AWTestPos | AWRdTl | AWait (woken : bool) | AWTestNeg
-| APRead | ASelect (ready : bool) | APipeRd
+| ARdTl                            (* a read of generate_events._time_left (which test it feeds follows from the program point) *)
+| ARWrite | ARHd | ARGet | ASig    (* reduce_time_left: write, handler tests, resume() signal *)
+| AClear | AWait (woken : bool)
+| ASelect (ready : bool) | APipeRd
 | AFReadH | ARet.
 
 Record state := {
@@ -150,7 +151,7 @@ Definition must_write (old x : tl) : bool :=
 Definition red_step (me g : nat) (x : tl) (r : rpc) (a : lbl) (s : state) : option (state * option rpc) :=
   match r, a with
   | RAcq, AAcq => match acquire me s with Some s' => Some (s', Some RTest) | None => None end
-  | RTest, ARTest => Some (s, Some (if must_write (gtl (gs s g)) x then RWrite else RRel))
+  | RTest, ARdTl => Some (s, Some (if must_write (gtl (gs s g)) x then RWrite else RRel))
   | RWrite, ARWrite =>
       let s' := set_gtl s g x in
       Some (s', Some (match x with Zero => RHd | _ => RRel end))
@@ -219,7 +220,9 @@ Definition lstep (a : lbl) (s : state) : option state :=
   | LODisp e, AClr => Some (after_event (set_handling s None))
   (* _dispatcher, generate_events: arm under the lock *)
   | LGAcq g, AAcq => match acquire 0 s with Some s' => Some (set_lp s' (LGSet g)) | None => None end
-  | LGSet g, ASetH => Some (set_lp (set_cur (set_handling s (Some (Some g))) g) LGTest)
+  | LGSet g, ASetH =>
+      (* `remaining > 0 or len(self._queue) ...`: the queue length is read only when remaining = 0 *)
+      Some (set_lp (set_cur (set_handling s (Some (Some g))) g) (if 0 <? batch s then LGRed RAcq else LGTest))
   | LGTest, AArmTest =>
       Some (set_lp s (if (0 <? batch s) || (0 <? length (dq s) + length (hp s)) then LGRed RAcq else LGRel))
   | LGRed r, _ =>
@@ -241,12 +244,12 @@ Definition lstep (a : lbl) (s : state) : option state :=
       end
   (* FallBackGenerator._on_generate_events *)
   | WAcq, AAcq => match acquire 0 s with Some s' => Some (set_lp s' WTest) | None => None end
-  | WTest, AWTest => Some (set_lp s WClear)
+  | WTest, ARdTl => Some (set_lp s WClear)
   | WClear, AClear => Some (set_lp (set_flag s false) WRel)
   | WRel, ARel => match release 0 s with Some s' => Some (set_lp s' WTestPos) | None => None end
-  | WTestPos, AWTestPos =>
+  | WTestPos, ARdTl =>
       Some (set_lp s (match gtl (gs s (cur s)) with Pos => WRdTl | _ => WTestNeg end))
-  | WRdTl, AWRdTl => Some (set_lp s (WWaitT (gtl (gs s (cur s)))))
+  | WRdTl, ARdTl => Some (set_lp s (WWaitT (gtl (gs s (cur s)))))
   | WWaitT x, AWait w =>
       (* Event.wait(x): returns True iff the flag is set; False = the timeout expired
          (x = 0, and the unreachable x < 0, expire at once; a positive one expiring is the Timeout transition) *)
@@ -257,11 +260,11 @@ Definition lstep (a : lbl) (s : state) : option state :=
       | Some (s', None) => Some (set_lp s' WTestNeg)
       | None => None
       end
-  | WTestNeg, AWTestNeg =>
+  | WTestNeg, ARdTl =>
       Some (set_lp s (match gtl (gs s (cur s)) with Neg => WWaitU | _ => LClr end))
   | WWaitU, AWait w => if Bool.eqb w (flag s) then Some (set_lp s WTestNeg) else None
   (* poller *)
-  | PRead, APRead => Some (set_lp s (PSel (gtl (gs s (cur s)))))
+  | PRead, ARdTl => Some (set_lp s (PSel (gtl (gs s (cur s)))))
   | PSel x, ASelect ready =>
       if Bool.eqb ready (0 <? pipe s) then
         if ready then Some (set_lp s PDrain)
